@@ -145,6 +145,10 @@ type PropSpec struct {
 	Assumptions []string
 	RuleDocs    map[string]string
 	Run         func(p *Program, r *Reporter)
+	// Manifest fields.
+	DesignRef string // DESIGN.md section
+	Technique string // a few words naming the deciding method
+	LevelText string // what assurance the check gives (level "other")
 	// Configs lists extra build configurations for the thorough tier.
 	ThoroughConfigs [][]string
 }
